@@ -400,7 +400,7 @@ func genEdfRefresh() (string, error) {
 	s += "def skipSmall (size : Int) : Bool := " + skipSmall + "\n\n"
 	s += "/-- second early return (`slowStart.Mode` is `mode`, `hostWeightsAreEqual(hosts)` is `weightsEqual`). -/\n"
 	s += "def skipEqual (mode : String) (weightsEqual : Bool) : Bool := " + skipEqual + "\n\n"
-	s += "/-- one call of the `hosts.Range` callback for a host whose `Health()` is `healthy`:\n(the host is added with `lb.scheduler.Add(host, lb.hostWeightFunc(host))`, the iteration goes on). -/\n"
+	s += "set_option linter.unusedVariables false in\n/-- one call of the `hosts.Range` callback for a host whose `Health()` is `healthy`:\n(the host is added with `lb.scheduler.Add(host, lb.hostWeightFunc(host))`, the iteration goes on). -/\n"
 	s += "def rangeStep (healthy : Bool) : Bool × Bool :=\n  " + rangeStep + "\n\n"
 	s += "/-- between the Range and the warm-up the scheduler is dropped (`lb.scheduler = nil; return`) when it is empty. -/\n"
 	s += "def dropsEmpty : Bool := " + b2s[drops] + "\n\n"
